@@ -267,6 +267,17 @@ class C15(PropBase):
             for cfg in ({}, {"tz": {"offset": "+02:00"}, "default_time": "23:59:59.5"}, {"tz": {"offset": "-12:00"}}):
                 out.append(self.mk("ts", simple(ts, ["a 1", "b"]), cfg=dict(cfg)))
             out.append(self.mk("ts", simple(ts, ["a 1", "b"], code=" (c)", desc=" 'd")))
+        # --- long lines with multi-byte characters, valid and at the point of the error (an error path that cuts or
+        #     pads the echoed line by bytes must not split a character): 2-, 3- and 4-byte characters, every alignment
+        for ch in ("é", "€", "\U0001d518"):
+            for n in (150, 350, 700, 3000):
+                for shift in range(4):
+                    pad = "x" * shift + ch * n
+                    out.append(self.mk("long-line:valid", simple(T, ["a 1", "b"], desc=" '" + pad)))
+                    out.append(self.mk("long-line:bad-date", simple("2024-02-30", ["a 1", "b"], desc=" '" + pad)))
+                    out.append(self.mk("long-line:bad-posting", simple(T, ["a 1 ; " + pad, "b 1 2 ; " + pad])))
+                    out.append(self.mk("long-line:bad-meta", simple(T, ["a 1", "b"], meta=" # uuid: " + pad + "\n")))
+                    out.append(self.mk("long-line:bad-sum", simple(T, ["a 1 ; " + pad, "b 1 ; " + pad], desc=" '" + pad)))
         # --- header features
         forbidden = list(")'([]{}<>") + ["\r", "\n"]
         for ch in forbidden + [chr(0xA0), "\t", chr(0x2003), ";", "#", "é"]:
